@@ -33,7 +33,70 @@ def reply_events(reply):
     return []
 
 
+YAML_RAIL = '''
+flow in1
+  global $user_message
+  $ok = await VerifRailAction(rail="in1", text=$user_message)
+  if not $ok
+    bot say "REFUSED-in1"
+    abort
+'''
+
+
+def explore_yaml_world(task):
+    """Colang 2.x with the input rail configured in config.yml (`rails.input.flows`, deprecated but supported: the
+    loader generates `flow input rails`), with / without an `import guardrails` in the user's own Colang"""
+    from vf.engines.world import World
+
+    _v, with_import = task[0], task[1]
+    res = {"worlds": 1, "turns": 0, "conversations": 0, "rejections": 0, "rewrites": 0, "llm_calls": 0, "rail_calls": 0, "viol": []}
+    info0 = {"engine": "E3-world", "prop": "C01", "version": "2.x-yaml", "with_import": with_import}
+    colang = "import core\n" + ("import guardrails\n" if with_import else "") + YAML_RAIL + rw.V2_MAIN_NODIALOG
+    import warnings
+    try:
+        with warnings.catch_warnings():
+            warnings.simplefilter("ignore")
+            w = World(colang, 'colang_version: "2.x"\nrails:\n  input:\n    flows: [in1]\n')
+    except Exception as e:
+        res["viol"].append(("world-rejected:v2:yaml-configured-rail", repr(e), info0))
+        return res
+    w.rails.register_action(w._rail_action, name="VerifRailAction")
+    w.rails.register_action(w._dialog_action, name="VerifLookupAction")
+    tag = "v2:yaml-configured-rail" + ("" if with_import else ":without-own-import-of-guardrails")
+    for seq in itertools.product("AR", repeat=2):
+        state = {}
+        res["conversations"] += 1
+        for t, k in enumerate(seq, start=1):
+            user_text = f"U{t}y{''.join(seq)}q hello"
+            turn = rw.run_turn(w, [{"role": "user", "content": user_text}], {"in1": k}, llm_fn, state=state)
+            res["turns"] += 1
+            info = dict(info0, verdicts=list(seq), turn=t)
+            if turn.exc is not None:
+                res["viol"].append((f"generate-raised:{tag}", repr(turn.exc), info))
+                break
+            calls = [(a["rail"], a["text"]) for a in turn.actions if a.get("rail") == "in1"]
+            res["rail_calls"] += len(calls)
+            if calls != [("in1", user_text)]:
+                res["viol"].append((f"input-rail-sequence:{tag}", f"turn {t} of verdicts {seq}: the configured input rail was invoked {calls}, expected once on {user_text!r}; reply {turn.text!r}", info))
+                break
+            if k == "R":
+                res["rejections"] += 1
+                if turn.text != "REFUSED-in1" or turn.llm_calls:
+                    res["viol"].append((f"reply-is-not-the-refusal:{tag}", f"reply {turn.text!r}, {len(turn.llm_calls)} LLM call(s)", info))
+                    break
+            state = turn.reply.state
+    seen, uniq = set(), []
+    for v in res["viol"]:
+        if v[0] not in seen:
+            seen.add(v[0])
+            uniq.append(v)
+    res["viol"] = uniq
+    return res
+
+
 def explore_world(task):
+    if task[0] == "2.x-yaml":
+        return explore_yaml_world(task)
     version, order, dialog, exceptions, turns = task[:5]
     library = len(task) > 5 and task[5] == "library"
     res = {"worlds": 1, "turns": 0, "conversations": 0, "rejections": 0, "rewrites": 0, "llm_calls": 0, "rail_calls": 0, "viol": []}
@@ -138,6 +201,8 @@ def tasks(tier):
                         continue
                     seen.add((order, dialog, exc))
                     out.append(("2.x", order, dialog, exc, turns))
+    out.append(("2.x-yaml", True))
+    out.append(("2.x-yaml", False))
     # the shipped `self check input` rail (its action replaced by a stub)
     for dialog in (False, True):
         for exc in (False, True):
@@ -146,6 +211,12 @@ def tasks(tier):
 
 
 def replay(rp):
+    if rp.get("version") == "2.x-yaml":
+        r = explore_yaml_world(("2.x-yaml", rp["with_import"]))
+        for sig, what, _i in r["viol"]:
+            print(sig, ":", what)
+        print(rp["what"])
+        return 0
     world = rw.v2_world(in_order=tuple(rp["order"]), dialog=rp["dialog"], exceptions=rp["exceptions"], library=rp.get("library_rails", False))
     state = {}
     for step in rp["history"]:
